@@ -30,10 +30,10 @@ func (w *tcpWriter) WriteMsg(m *dns.Msg) error {
 	return nil
 }
 func (w *tcpWriter) Write(b []byte) (int, error) { w.n++; return len(b), nil }
-func (w *tcpWriter) Close() error              { return nil }
-func (w *tcpWriter) TsigStatus() error         { return nil }
-func (w *tcpWriter) TsigTimersOnly(bool)       {}
-func (w *tcpWriter) Hijack()                   {}
+func (w *tcpWriter) Close() error                { return nil }
+func (w *tcpWriter) TsigStatus() error           { return nil }
+func (w *tcpWriter) TsigTimersOnly(bool)         {}
+func (w *tcpWriter) Hijack()                     {}
 
 // udpWriter is a response writer whose remote address is a *net.UDPAddr: the handler fits the
 // reply into the size the client advertised.
@@ -66,31 +66,31 @@ type RRp struct {
 
 // Reply is the projection of a written response.
 type Reply struct {
-	ID       int     `json:"id"`
-	QR       bool    `json:"qr"`
-	Question []RRp   `json:"question"` // owner/type/class only
-	Rcode    int     `json:"rcode"`
-	AA       bool    `json:"aa"`
-	TC       bool    `json:"tc"`
-	An       []RRp   `json:"an"`
-	Ns       []RRp   `json:"ns"`
-	Ex       []RRp   `json:"ex"` // without OPT
-	Opt      bool    `json:"opt"`
-	OptCodes []int   `json:"optcodes"`
-	Ecs      []int   `json:"ecs"` // family(2) source scope address, nil if absent
-	HasEcs   bool    `json:"has_ecs"`
-	PackOK   bool    `json:"packok"` // the response packs and unpacks again
-	Writes   int     `json:"writes"`
+	ID       int   `json:"id"`
+	QR       bool  `json:"qr"`
+	Question []RRp `json:"question"` // owner/type/class only
+	Rcode    int   `json:"rcode"`
+	AA       bool  `json:"aa"`
+	TC       bool  `json:"tc"`
+	An       []RRp `json:"an"`
+	Ns       []RRp `json:"ns"`
+	Ex       []RRp `json:"ex"` // without OPT
+	Opt      bool  `json:"opt"`
+	OptCodes []int `json:"optcodes"`
+	Ecs      []int `json:"ecs"` // family(2) source scope address, nil if absent
+	HasEcs   bool  `json:"has_ecs"`
+	PackOK   bool  `json:"packok"` // the response packs and unpacks again
+	Writes   int   `json:"writes"`
 }
 
 // Obs is what one backend did with one query.
 type Obs struct {
-	Loc    string `json:"loc"` // "err" | "nil" | "ok"
-	LocID  []int  `json:"locid"`
-	LocEcs []int  `json:"locecs"` // ECS option as FindLocation returned it
-	HasLocEcs bool `json:"has_locecs"`
-	Panic  string `json:"panic"`
-	Reply  *Reply `json:"reply"`
+	Loc       string `json:"loc"` // "err" | "nil" | "ok"
+	LocID     []int  `json:"locid"`
+	LocEcs    []int  `json:"locecs"` // ECS option as FindLocation returned it
+	HasLocEcs bool   `json:"has_locecs"`
+	Panic     string `json:"panic"`
+	Reply     *Reply `json:"reply"`
 }
 
 // Query is one query with its per-backend observations.
@@ -99,15 +99,15 @@ type Query struct {
 	Client string `json:"client"`
 	Max    int    `json:"max"`
 	// derived from the unpacked message, for the model
-	ID      int   `json:"id"`
-	Name    []int `json:"name"`
-	Type    int   `json:"type"`
-	Class   int   `json:"class"`
-	HasOpt  bool  `json:"has_opt"`
-	Version int   `json:"version"`
-	Class_  string `json:"qclass"` // generator class of the query
-	Obs     map[string]*Obs `json:"obs"`
-	Udp     bool   `json:"udp"` // also ask over UDP and observe the size of what is written
+	ID      int                `json:"id"`
+	Name    []int              `json:"name"`
+	Type    int                `json:"type"`
+	Class   int                `json:"class"`
+	HasOpt  bool               `json:"has_opt"`
+	Version int                `json:"version"`
+	Class_  string             `json:"qclass"` // generator class of the query
+	Obs     map[string]*Obs    `json:"obs"`
+	Udp     bool               `json:"udp"` // also ask over UDP and observe the size of what is written
 	UdpObs  map[string]*UdpObs `json:"udpobs,omitempty"`
 }
 
